@@ -236,9 +236,9 @@ METHODS = {
     'Transitions': [('matrix', [()]), ('states_next', [()]), ('states_prev', [()])],
     'JumpsShared': [('matrix', [()]), ('counter', [()]), ('jump_diffusivity', [(3,)]), ('_counter', [()])],
     'Jumps': [('matrix', [()]), ('counter', [()]), ('_counter', [()]), ('jump_diffusivity', [(1,), (2,), (3,)]), ('collective', [(), (2.5,)]), ('rates', [(1,), (2,)]),
-              ('to_graph', [(), (-0.3, 0.4), {'max_e_act': 0.25}, {'min_e_act': -0.2}, {'max_e_act': 0.1, 'min_e_act': -0.5}]), ('activation_energies', [(1,), (2,)])],
+              ('to_graph', [(), (-0.3, 0.4), {'max_e_act': 0.25}, {'min_e_act': -0.2}, {'max_e_act': 0.1, 'min_e_act': -0.5}, {'min_e_act': -1}, {'min_e_act': -2}]), ('activation_energies', [(1,), (2,)])],
     'TrajectoryMetrics': [('speed', [()]), ('particle_density', [()]), ('mol_per_liter', [()]), ('tracer_diffusivity', [{'dimensions': 1}, {'dimensions': 3}]),
-                          ('tracer_conductivity', [{'z_ion': 1, 'dimensions': 3}, {'z_ion': 2, 'dimensions': 2}]), ('attempt_frequency', [()]), ('vibration_amplitude', [()]),
+                          ('tracer_conductivity', [{'z_ion': 1, 'dimensions': 3}, {'z_ion': 2, 'dimensions': 2}, {'z_ion': -1, 'dimensions': 3}, {'z_ion': -2, 'dimensions': 3}, {'z_ion': -3, 'dimensions': 1}]), ('attempt_frequency', [()]), ('vibration_amplitude', [()]),
                           ('amplitudes', [()]), ('haven_ratio', [{'dimensions': 3}]), ('tracer_diffusivity_center_of_mass', [{'dimensions': 3}])],
     'Trajectory': [('metrics', [()]), ('mean_squared_displacement', [()]), ('distances_from_base_position', [()]), ('center_of_mass', [()]), ('drift', [()]), ('to_volume', [(1.5,)])],
     'Collective': [('site_pair_count_matrix', [()]), ('site_pair_count_matrix_labels', [()]), ('multiple_collective', [()])],
@@ -271,12 +271,36 @@ def history_transitions(h):
     return Transitions(trajectory=c19.frame_coded(T, N), diff_trajectory=c19.frame_coded(T, N), sites=c03.dummy_sites(int(states.max()) + 1), events=events, states=states, inner_states=inner)
 
 
+def make_conversion(which):
+    """user-supplied conversion methods for Jumps(conversion_method=...): two closures from one factory (same __name__, different
+    behaviour) and a functools.partial (no __name__ at all); each keeps a different subset of the default jumps"""
+    import functools
+
+    from gemdat.jumps import _generic_transitions_to_jumps
+
+    def select(transitions, minimal_residence=0, rule=0):
+        df = _generic_transitions_to_jumps(transitions, minimal_residence=minimal_residence)
+        keep = (df['start site'] != 0) if rule == 1 else ((df['start time'] % 2 == 0) if rule == 2 else (df['destination site'] != 0))
+        out = df[keep].reset_index(drop=True)
+        if len(out) == 0:
+            raise ValueError('No jumps found')
+        return out
+
+    if which == 3:
+        return functools.partial(select, rule=3)
+
+    def conv(transitions, minimal_residence=0):
+        return select(transitions, minimal_residence=minimal_residence, rule=which)
+
+    return conv
+
+
 def own_rates(j, n_parts):
     """rates from this object's transitions, split and classified independently of Jumps.split"""
     import pandas as pd
     from gemdat.jumps import Jumps
 
-    parts = [gcall(Jumps, p, minimal_residence=j.minimal_residence, allow=(ValueError,)) for p in gcall(j.transitions.split, n_parts)]
+    parts = [gcall(Jumps, p, conversion_method=j.conversion_method, minimal_residence=j.minimal_residence, allow=(ValueError,)) for p in gcall(j.transitions.split, n_parts)]
     if any(isinstance(p, Raised) for p in parts):
         return None
     counters = [gcall(p.counter) for p in parts]
@@ -340,7 +364,9 @@ class RealMachine(LogMachine):
             # several Jumps objects with different settings over ONE shared Transitions object whose history is residence-sensitive
             if 'h' not in self.shared:
                 self.shared['h'] = history_transitions(self.histories[0])
-            j = gcall(Jumps, history_transitions(self.histories[0]) if pristine else self.shared['h'], minimal_residence=[0, self.histories[0]['residences'][1], 1][k % 3], allow=(ValueError,))
+            # ... and with different user-supplied conversion methods (default / two closures of one factory / a functools.partial)
+            ckw = {'conversion_method': make_conversion((k // 3) % 4)} if (k // 3) % 4 else {}
+            j = gcall(Jumps, history_transitions(self.histories[0]) if pristine else self.shared['h'], minimal_residence=[0, self.histories[0]['residences'][1], 1][k % 3], **ckw, allow=(ValueError,))
             if isinstance(j, Raised):
                 raise Skip()
             return j
@@ -373,6 +399,12 @@ class RealMachine(LogMachine):
         meth = getattr(o, name)
         if name == 'to_graph' and kw:
             gcall(meth, allow=(ValueError, ZeroDivisionError, IndexError, KeyError))  # the unrestricted graph first
+        if (m + ai) % 3 == 0:
+            # every other argument set of this method first: an entry made for other arguments must never answer this call
+            for other in arglist:
+                if other is not args:
+                    oa, okw = (other, {}) if isinstance(other, tuple) else ((), other)
+                    gcall(meth, *oa, **okw, allow=(ValueError, ZeroDivisionError, IndexError, KeyError))
         got = gcall(meth, *a, **kw, allow=(ValueError, ZeroDivisionError, IndexError, KeyError))
         got2 = gcall(meth, *a, **kw, allow=(ValueError, ZeroDivisionError, IndexError, KeyError))
         self.cached.add(h)
@@ -435,7 +467,8 @@ class RealMachine(LogMachine):
             # two live objects that differ only in their settings / system, queried with the same method and arguments
             h1 = self._new(op['k'], op['kind'])
             # (family kinds: the same system, another slice of the same shared parent trajectory)
-            h2 = self._new(op['k'] + (len(self.systems) if op['kind'].endswith('Family') else 1), op['kind'])
+            # (JumpsShared: another minimal residence (k + 1) or the same residence with another conversion method (k + 3))
+            h2 = self._new(op['k'] + (len(self.systems) if op['kind'].endswith('Family') else (3 if op['kind'] == 'JumpsShared' and op['a'] % 2 else 1)), op['kind'])
             for h in (h1, h2, h1):
                 self._call(h, op['m'], op['a'])
         elif k == 'burst':
@@ -491,11 +524,11 @@ class RealMachine(LogMachine):
                 ok.append(c)
         self.step({'op': 'init', 'systems': ok, 'histories': [history]})
 
-    @rule(k=st.integers(0, 8), kind=st.sampled_from(['Transitions', 'Jumps', 'Jumps', 'JumpsShared', 'JumpsShared', 'TrajectoryMetrics', 'Collective', 'Trajectory', 'JumpsFamily', 'JumpsFamily', 'MetricsFamily']))
+    @rule(k=st.integers(0, 11), kind=st.sampled_from(['Transitions', 'Jumps', 'Jumps', 'JumpsShared', 'JumpsShared', 'TrajectoryMetrics', 'Collective', 'Trajectory', 'JumpsFamily', 'JumpsFamily', 'MetricsFamily']))
     def r_new(self, k, kind):
         self.step({'op': 'new', 'k': k, 'kind': kind})
 
-    @rule(i=st.integers(0, 30), m=st.integers(0, 12), a=st.integers(0, 5))
+    @rule(i=st.integers(0, 30), m=st.integers(0, 12), a=st.integers(0, 7))
     def r_call(self, i, m, a):
         self.step({'op': 'call', 'i': i, 'm': m, 'a': a})
 
@@ -503,11 +536,11 @@ class RealMachine(LogMachine):
     def r_drop(self, i):
         self.step({'op': 'drop', 'i': i})
 
-    @rule(i=st.integers(0, 30), k=st.integers(0, 5), m=st.integers(0, 12), a=st.integers(0, 3))
+    @rule(i=st.integers(0, 30), k=st.integers(0, 5), m=st.integers(0, 12), a=st.integers(0, 7))
     def r_drop_create(self, i, k, m, a):
         self.step({'op': 'drop-create', 'i': i, 'k': k, 'm': m, 'a': a})
 
-    @rule(k=st.integers(0, 8), kind=st.sampled_from(['JumpsShared', 'JumpsShared', 'Jumps', 'Transitions', 'JumpsFamily', 'JumpsFamily', 'MetricsFamily']), m=st.sampled_from([0, 1, 2, 3, 5, 5]), a=st.integers(0, 3))
+    @rule(k=st.integers(0, 11), kind=st.sampled_from(['JumpsShared', 'JumpsShared', 'Jumps', 'Transitions', 'JumpsFamily', 'JumpsFamily', 'MetricsFamily']), m=st.sampled_from([0, 1, 2, 3, 5, 5]), a=st.integers(0, 7))
     def r_pair(self, k, kind, m, a):
         self.step({'op': 'pair', 'k': k, 'kind': kind, 'm': m, 'a': a})
 
